@@ -25,6 +25,16 @@ def comm_to_prog(b: dict, pid: str, tagkind: str = "str") -> dict:
         def add(nd: dict) -> int:
             nodes.append(nd)
             return len(nodes) - 1
+        holders: set[tuple] = set()
+
+        def hold(data_: int, dst: int, tag: int, pas: int) -> int:
+            """A holder node; two holders that would be equal in every field
+            (one node for pytato) are kept apart by one more operation on the
+            pass-through, so that every send end of the behaviour exists."""
+            if (data_, dst, tag, pas) in holders:
+                pas = add({"k": "op", "args": [pas]})
+            holders.add((data_, dst, tag, pas))
+            return add({"k": "hold", "data": data_, "dst": dst, "tag": tag, "pass": pas})
         x = add({"k": "in", "name": f"x{r}"})
         mode, staple = b["stored"][r], b["staple"][r]
         base = x
@@ -39,32 +49,51 @@ def comm_to_prog(b: dict, pid: str, tagkind: str = "str") -> dict:
             wrapped[j] = add({"k": "op", "args": [raw[j]], "st": 1}) if mode in (2, 3) \
                 else raw[j]
         data: dict[int, int] = {}
-        for i, s in enumerate(b["sends"], 1):
-            if s["src"] != r:
-                continue
+        mine_all = {i: s for i, s in enumerate(b["sends"], 1) if s["src"] == r}
+
+        def alive(i: int) -> bool:
+            s = mine_all[i]
+            return s.get("alive", s["on"])
+
+        def hosted(j: int) -> list[int]:
+            return [i for i, s in mine_all.items() if s.get("inside", 0) == j and alive(i)]
+
+        def build_data(i: int) -> int:
+            """The array send i sends; holders placed inside its data are
+            operands of it (their value is their pass-through, the base)."""
+            if i in data:
+                return data[i]
+            s = mine_all[i]
             deps = [j for j in s["deps"] if j in raw]
-            if s["share"] and s["share"] in data:
-                data[i] = data[s["share"]]
-            elif s["kind"] == "in":
+            kids = hosted(i)
+            if s["share"] and s["share"] in mine_all and not kids:
+                data[i] = build_data(s["share"])
+            elif s["kind"] == "in" and not kids:
                 data[i] = x
-            elif s["kind"] == "fwd" and len(deps) == 1:
+            elif s["kind"] == "fwd" and len(deps) == 1 and not kids:
                 data[i] = raw[deps[0]]
             else:
-                data[i] = add({"k": "op", "args": [base] + [wrapped[j] for j in deps]})
+                inner = [hold(build_data(c), mine_all[c]["dst"], mine_all[c]["tag"], base)
+                         for c in kids]
+                data[i] = add({"k": "op", "args": inner + [base] + [wrapped[j] for j in deps]})
+            return data[i]
+        for i in mine_all:
+            build_data(i)
         feeds = [wrapped[j] for j, rv in enumerate(b["recvs"], 1)
                  if j in raw and rv["use"] in ("out", "both")]
-        mine = [(i, s) for i, s in enumerate(b["sends"], 1) if s["src"] == r and s["on"]]
+        top = [(i, s) for i, s in mine_all.items() if alive(i) and not s.get("inside", 0)]
+        mine = [(i, s) for i, s in top if not s.get("par")]
+        # holders in parallel: operands of the output expression, each on the base
+        feeds = [hold(data[i], s["dst"], s["tag"], base) for i, s in top if s.get("par")] + feeds
         if staple == 0:
             h = add({"k": "op", "args": [base] + feeds})
             for i, s in mine:
-                h = add({"k": "hold", "data": data[i], "dst": s["dst"], "tag": s["tag"],
-                         "pass": h})
+                h = hold(data[i], s["dst"], s["tag"], h)
             out = h
         else:
             h = base
             for i, s in mine:
-                h = add({"k": "hold", "data": data[i], "dst": s["dst"], "tag": s["tag"],
-                         "pass": h})
+                h = hold(data[i], s["dst"], s["tag"], h)
             out = add({"k": "op", "args": [h] + feeds})
         outs = [["out", out]]
         for j, rv in enumerate(b["recvs"], 1):
@@ -433,6 +462,36 @@ def _library(tk: str) -> Iterable[dict]:
     bs[3].out("out", bs[3].op(w, bs[3].recv(2, 1)))
     yield _prog(f"lib/uneven_paths{sfx}", bs, tk)
 
+    # a send whose data contains the holder of another send (both must be sent):
+    # same round / the inner send one round later (its data needs a receive
+    # that the outer send does not need) / nesting depth 2
+    b0, b1 = _B(), _B()
+    x = b0.inp()
+    inner = b0.hold(b0.op(x), 1, 2, x)
+    b0.out("out", b0.hold(b0.op(inner, x), 1, 1, b0.op(x)))
+    y = b1.inp()
+    b1.out("out", b1.op(y, b1.recv(0, 1), b1.recv(0, 2)))
+    yield _prog(f"lib/send_in_data{sfx}", [b0, b1], tk)
+
+    b0, b1 = _B(), _B()
+    x = b0.inp()
+    back = b0.recv(1, 3)
+    inner = b0.hold(b0.op(x, back), 1, 2, x)
+    b0.out("out", b0.hold(b0.op(inner, x), 1, 1, b0.op(x)))
+    y = b1.inp()
+    o = b1.op(y, b1.recv(0, 1), b1.recv(0, 2))
+    b1.out("out", b1.hold(b1.op(y), 0, 3, o))
+    yield _prog(f"lib/send_in_data_later_round{sfx}", [b0, b1], tk)
+
+    b0, b1 = _B(), _B()
+    x = b0.inp()
+    in2 = b0.hold(b0.op(x), 1, 3, x)
+    in1 = b0.hold(b0.op(in2, x), 1, 2, x)
+    b0.out("out", b0.hold(b0.op(in1, x), 1, 1, b0.op(x)))
+    y = b1.inp()
+    b1.out("out", b1.op(y, b1.recv(0, 1), b1.recv(0, 2), b1.recv(0, 3)))
+    yield _prog(f"lib/send_in_data_depth2{sfx}", [b0, b1], tk)
+
     # two ranks talk, a third one only computes
     b0, b1, b2 = _B(), _B(), _B()
     x = b0.inp()
@@ -544,3 +603,23 @@ def abs_instance(b: dict, iid: str, base_tag: int = 42) -> dict | None:
                       "next_tag": base_tag + len(msgs)})
     return {"id": iid, "n": n, "ranks": ranks, "global_ok": True, "global_err": "",
             "ends": ends, "base_tag": base_tag, "verify": ["ok"] * n, "values": len(ids)}
+
+
+def has_nested_holder(prog: dict) -> bool:
+    """Structural feature used as a signature item: the data of some send
+    contains the holder of another send."""
+    for rk in prog["ranks"]:
+        nodes = rk["nodes"]
+
+        def below(i: int, seen: set) -> bool:
+            if i in seen:
+                return False
+            seen.add(i)
+            nd = nodes[i]
+            if nd["k"] == "hold":
+                return True
+            return any(below(j, seen) for j in nd.get("args", []))
+        for nd in nodes:
+            if nd["k"] == "hold" and below(nd["data"], set()):
+                return True
+    return False
